@@ -21,6 +21,11 @@
      Dev_NowBoundLeftInvalid        same cause, the surviving bound was now()-relative: the rewrite
               turned now() into `true`, ConditionExpr rejects the condition from then on - exactly
               where the design spec predicts an error
+     plain-reading-differs   the selection through the splitter is right, but the condition the statement
+              holds (step.sk: its boolean skeleton, leaves read by the real ConditionExpr / EvalBool), read
+              as a plain boolean formula, does not select exactly start <= t < end /\ non-time part of the
+              previous condition at some grid point (e.g. `a OR b AND window`: the splitter intersects time
+              ranges through OR, the plain reading selects every point with a)
      printed-condition-differs   the selection through the splitter is right, but the printed condition
               (step.skp: skeleton of cond.String() parsed back) does not denote the predicate of the
               condition the statement holds (step.sk) under the plain boolean reading at some grid point:
@@ -52,15 +57,17 @@ StepClass(r, i, s, w, prevNT, dob, dfx, grid) ==
                    ELSE d.err = "" /\ s.lo = d.lo /\ s.hi = d.hi /\ RtOf(s) = d.rt
         asDesign == Same(dob)
         grows == i >= 2 /\ ~NoGrowth(r.obs.steps[i - 1].size, s.size)
+        plain == ~Has(s, "sk") \/ PlainOKSk(s.sk, w, prevNT, grid)
         faithful == ~Has(s, "sk") \/ ~Has(s, "skp") \/ PrintFaithfulSk(s.sk, s.skp, grid)
     IN IF unmapped THEN "unmappable"
        ELSE IF ~holds THEN
               IF Unstrippable(r.c) /\ asDesign
               THEN (IF failed THEN "Dev_NowBoundLeftInvalid" ELSE "Dev_TimeBoundNotPrintedAsTime")
               ELSE "setrange-mismatch"
+       ELSE IF ~plain THEN "plain-reading-differs"
        ELSE IF ~faithful THEN "printed-condition-differs"
        ELSE IF grows THEN "condition-grows"
-       ELSE IF ~asDesign /\ ~Same(dfx) THEN "drift:setrange"
+       ELSE IF ~Same(dfx) /\ ~asDesign THEN "drift:setrange"
        ELSE "ok"
 
 RECURSIVE StepClasses(_, _, _, _, _, _, _)
@@ -68,13 +75,13 @@ StepClasses(r, i, prevNT, dcond, fcond, grid, acc) ==
   IF i > Len(r.wins) \/ i > Len(r.obs.steps) THEN acc
   ELSE LET s == r.obs.steps[i]
            w == r.wins[i]
-           dnext == SetTRx(dcond, w, FALSE)
-           fnext == SetTRx(fcond, w, TRUE)
+           dnext == SetTRx(dcond, w, FALSE, ParenTopOr)
+           fnext == SetTRx(fcond, w, TRUE, ParenTopOr)
            cls == StepClass(r, i, s, w, prevNT, Observe(dnext), Observe(fnext), grid)
            nextNT == IF Has(s, "rt") THEN s.rt ELSE IF Has(s, "nores") THEN AllTrue ELSE prevNT
        IN StepClasses(r, i + 1, nextNT, dnext, fnext, grid, Append(acc, cls))
 
-Priority == <<"panic", "setrange-error", "setrange-mismatch", "printed-condition-differs", "condition-grows", "unmappable",
+Priority == <<"panic", "setrange-error", "setrange-mismatch", "plain-reading-differs", "printed-condition-differs", "condition-grows", "unmappable",
               "Dev_NowBoundLeftInvalid", "Dev_TimeBoundNotPrintedAsTime", "drift:setrange">>
 FirstIdx(cs, c) == CHOOSE i \in 1..Len(cs) : cs[i] = c /\ \A j \in 1..(i - 1) : cs[j] # c
 
